@@ -243,7 +243,10 @@ tainted<T*, T_Sbx> copy_memory_or_grant_access(rlbox_sandbox<T_Sbx>& sandbox,
                 "copy_memory_or_grant_access not supported on this type as "
                 "there may be ABI differences");
 
-  // overflow ok
+  // The byte size is what gets range checked below, while the element count
+  // is what is handed on: they must describe the same buffer
+  detail::dynamic_check(num <= std::numeric_limits<size_t>::max() / sizeof(T),
+                        "Granting access too large a region");
   size_t source_size = num * sizeof(T);
 
   // sandbox can grant access if it includes the following line
@@ -308,7 +311,10 @@ T* copy_memory_or_deny_access(rlbox_sandbox<T_Sbx>& sandbox,
                 "copy_memory_or_deny_access not supported on this type as "
                 "there may be ABI differences");
 
-  // overflow ok
+  // The byte size is what gets range checked below, while the element count
+  // is what is handed on: they must describe the same buffer
+  detail::dynamic_check(num <= std::numeric_limits<size_t>::max() / sizeof(T),
+                        "Denying access to too large a region");
   size_t source_size = num * sizeof(T);
 
   // sandbox can grant access if it includes the following line
